@@ -388,9 +388,7 @@ func (c16) Run(t TestingT, scn json.RawMessage, tape *Tape) *Outcome {
 		o.Violate("C16/caller-blocked", "the call did not return: stuck=%v cap=%v unfinished=%v leaked=%v", s.Stuck, s.CapHit, s.StuckOn, s.Leaked)
 		return o
 	}
-	isCtxErr := func(r string) bool {
-		return ctxErrText != "" && r == `{"data":null,"errors":[{"message":"`+ctxErrText+`","locations":[]}]}`
-	}
+	isCtxErr := func(r string) bool { return ctxErrText != "" && isExactlyError(r, ctxErrText) }
 	o.Nontrivial = idxCancel >= 0 && idxSend != -1 || idxCancel > 0
 	o.Sample = map[string]interface{}{"scenario": sc, "result": got, "cancel_idx": idxCancel, "send_idx": idxSend}
 	switch {
@@ -481,6 +479,37 @@ func c16SameStep(trace []Event, idxCancel, idxReturned int) bool {
 	}
 	for i := from + 1; i < idxReturned; i++ {
 		if e := trace[i]; (e.Kind == "run" || e.Kind == "act") && !strings.HasPrefix(e.Task, "c1pre") {
+			return false
+		}
+	}
+	return true
+}
+
+// isExactlyError reports whether a marshalled result carries no data, nothing
+// but the standard keys, and exactly one error whose message is msg and which
+// has no path (the shape of the rest of the error object is not judged).
+func isExactlyError(result, msg string) bool {
+	var top map[string]json.RawMessage
+	if json.Unmarshal([]byte(result), &top) != nil {
+		return false
+	}
+	for k := range top {
+		if k != "data" && k != "errors" {
+			return false
+		}
+	}
+	if d, ok := top["data"]; ok && string(d) != "null" {
+		return false
+	}
+	var errs []map[string]interface{}
+	if json.Unmarshal(top["errors"], &errs) != nil || len(errs) != 1 {
+		return false
+	}
+	if m, _ := errs[0]["message"].(string); m != msg {
+		return false
+	}
+	if p, ok := errs[0]["path"]; ok && p != nil {
+		if l, isList := p.([]interface{}); !isList || len(l) > 0 {
 			return false
 		}
 	}
